@@ -568,4 +568,22 @@ pub mod verif_hooks {
         assert!(c.len() >= 16);
         unsafe { super::arch::simd_str2int(c, need) }
     }
+
+    /// Eisel-Lemire at binary64: (f, e) of the returned `BiasedFp`
+    pub fn compute_float_f64(q: i64, w: u64) -> (u64, i32) {
+        let fp = super::lemire::compute_float::<f64>(q, w);
+        (fp.f, fp.e)
+    }
+
+    pub fn parse_floating_normal_fast(exp10: i32, man: u64) -> Option<u64> {
+        super::parse_floating_normal_fast(exp10, man)
+    }
+
+    pub fn biased_fp_to_bits_f64(f: u64, e: i32) -> u64 {
+        super::biased_fp_to_float::<f64>(super::BiasedFp { f, e }).to_bits()
+    }
+
+    pub fn is_8digits(v: u64) -> bool {
+        super::common::is_8digits(v)
+    }
 }
